@@ -129,7 +129,16 @@ impl Property for C11 {
                 continue;
             }
             let v = if very_long {
-                gen_scalar(rng, false)
+                // small objects whose array holds one element a macro can work on and one it
+                // cannot (it yields nothing for that one), and some scalars
+                if rng.chance(4, 5) {
+                    Val::Obj(vec![
+                        ("id".into(), Val::Int(i as i128 % 50)),
+                        ("arr".into(), Val::Arr(vec![Val::Str("a".into()), Val::Int(rng.range_i64(0, 9) as i128)])),
+                    ])
+                } else {
+                    gen_scalar(rng, false)
+                }
             } else if long && rng.chance(1, 2) {
                 // small values with many empty containers
                 gen_val(rng, 2, false)
@@ -156,6 +165,17 @@ impl Property for C11 {
             }
         }
         case.opts = pipe.opts;
+        if very_long {
+            case.set("fresh_thread", 1);
+        }
+        if very_long && rng.chance(1, 2) {
+            // a macro applied to every array element: nothing for strings, a value for numbers
+            case.opts = vec![
+                vec!["--set".into(), "@inc=(+ . 1)".into()],
+                vec!["--select".into(), "(map .arr @inc)=y".into()],
+                vec!["--select".into(), ".id=id".into()],
+            ];
+        }
         let nrec = case.pieces.len();
         case.set("cut", rng.below(nrec + 1) as i64);
         // transport plan: permutation with repetitions and drops
